@@ -1,4 +1,4 @@
-(* C07 — Semaphore: every available permit reaches a waiter (history half).
+(* C07 — Semaphore: every available permit reaches a waiter. History half first, schedule half below.
    For every operation history (any initial count, acquire / acquire_arc futures polled with any
    wakers, spuriously, cancelled at any point of their life, completed futures kept alive for any
    time, try_acquire, guard drops in any number in a row, forget, add_permits(n) for every n):
@@ -8,6 +8,7 @@
    says that the most recent waker is the one that gets called. *)
 From AL Require Import Base Api Semaphore SemApi SemLive.
 From AL.Tie Require Tie_Semaphore.
+From AL.Sched Require SemEvSched SemEvInv SemEvOrd.
 
 Theorem C07_hist : forall (n : N) (ops : list sop),
   let x := srun n ops in
@@ -40,6 +41,38 @@ Proof.
   - split; [reflexivity|]. eexists. split; reflexivity.
 Qed.
 
+(* ---------- schedule half: every interleaving of atomic actions ---------- *)
+(* The micro-step machine of Sched/SemEvSched.v cuts every poll of an acquire future, every guard drop and every
+   add_permits at each atomic action on the counter and each critical section of the event's list; any number of
+   futures, releasing and barging threads; polls start at any time. [gen_baton] says which machine the source is
+   (read from Gen/Sites.v): with or without the repair of finding F5.
+   For EVERY schedule: in a state in which a permit is available, no thread is inside a poll or between its
+   fetch_add and its notify, and every future whose waker was called has been polled again, no polled future
+   waits. *)
+Theorem C07_sched : forall (sched : list SemEvSched.act) (permits : N) (nfuts : nat),
+  SemEvSched.lostb (SemEvSched.run SemEvSched.gen_baton permits nfuts sched) = false.
+Proof. rewrite SemEvOrd.sem_baton_premise. exact SemEvInv.sem_sched_no_lost_wakeup. Qed.
+
+(* the same for states that are not at rest: a permit and a waiting future imply that something is in flight — a
+   thread owes a notify, an entry is notified, or a future is inside a poll at a point from which it will run
+   try_acquire or the baton check *)
+Theorem C07_sched_inflight : forall (sched : list SemEvSched.act) (permits : N) (nfuts : nat),
+  let s := SemEvSched.run SemEvSched.gen_baton permits nfuts sched in
+  0 < SemEvSched.g_cnt s -> existsb SemEvSched.parked (SemEvSched.g_futs s) = true -> SemEvInv.inflight s = true.
+Proof. rewrite SemEvOrd.sem_baton_premise. exact SemEvInv.sem_sched_inflight. Qed.
+
+(* the statement has teeth: the machine WITHOUT the baton step (the code before fix 04640ce) loses a wake-up on the
+   schedule of finding F5; with it the same schedule, continued, wakes the second waiter *)
+Theorem C07_sched_prefix_refuted : SemEvSched.lostb (SemEvSched.run false 2 2 SemEvSched.f5_schedule) = true.
+Proof. exact SemEvInv.sem_sched_prefix_refuted. Qed.
+Example C07_sched_nonvacuous :
+  let s := SemEvSched.run true 2 2 (SemEvSched.f5_schedule ++ [SemEvSched.ABaton 0; SemEvSched.ANotify 0]) in
+  SemEvSched.g_cnt s = 1 /\ nth_error (SemEvSched.g_futs s) 1 = Some (SemEvSched.mkF SemEvSched.PParked (Some 1%nat) true).
+Proof. exact SemEvInv.sem_sched_f5_repaired. Qed.
+
 Print Assumptions C07_hist.
 Print Assumptions C07_invariant.
 Print Assumptions C07_no_error.
+Print Assumptions C07_sched.
+Print Assumptions C07_sched_inflight.
+Print Assumptions C07_sched_prefix_refuted.
